@@ -159,7 +159,13 @@ def add_return_edges_to_callee(
     for block in _get_function_blocks(module, func_uuid):
         assert block.ir
 
-        if not cache.return_cache.any_return_edges(block):
+        # The block returns if it has return edges in the module's CFG or -
+        # when an earlier call of the same patch already moved its proxy
+        # return edge - in the CFG the new edges are collected in.
+        if not cache.return_cache.any_return_edges(block) and not any(
+            edge.label and edge.label.type == gtirb.Edge.Type.Return
+            for edge in cfg.out_edges(block)
+        ):
             continue
 
         for return_edge in cache.return_cache.block_proxy_return_edges(block):
